@@ -10,7 +10,7 @@ from common import log
 # key counts model-checked per tier: (K, MaxSpan)
 MC = {
     "quick": [(2, 3), (4, 3), (5, 3)],
-    "thorough": [(1, 3), (2, 5), (3, 5), (4, 5), (5, 5), (6, 3), (7, 3), (8, 3)],
+    "thorough": [(1, 3), (2, 5), (3, 5), (4, 5), (5, 5), (6, 3), (7, 3), (8, 3), (9, 1), (10, 1)],
 }
 
 
